@@ -419,9 +419,24 @@ func TestVerifReplay(t *testing.T) {
 		}
 		vLoadReplay(file)
 		vState.selftest = false
-		st, msg := vRunOne(vState.file.Harness, 5*time.Second)
-		if st == "ok" && len(vState.failed) > 0 {
-			st = "fail"
+		tries := 1
+		for _, d := range vState.file.Draws {
+			if d.Dom == "rand.Intn" {
+				tries = 3000 // outcome depends on math/rand: statistical replay
+			}
+		}
+		var st, msg string
+		for try := 0; try < tries; try++ {
+			vState.pos = 0
+			vState.failed = nil
+			vState.seed = try
+			st, msg = vRunOne(vState.file.Harness, 5*time.Second)
+			if st == "ok" && len(vState.failed) > 0 {
+				st = "fail"
+			}
+			if st != "ok" {
+				break
+			}
 		}
 		fmt.Printf("REPLAY-RESULT file=%s status=%s clauses=%q msg=%q\n", file, st, strings.Join(vState.failed, ","), msg)
 	}
@@ -878,6 +893,9 @@ func runProperty(prop, tier string) int {
 	fmt.Printf("%s %s: %d paths, %d queries (sat %d, unsat %d, unknown %d), solver %.1fs, wall %.1fs, selftest vectors %d\n",
 		prop, tier, totalPaths, rs.sat+rs.unsat+rs.unk, rs.sat, rs.unsat, rs.unk, rs.solverS, time.Since(t0).Seconds(), validated)
 	if newViolations > 0 {
+		for _, m := range mismatch {
+			fmt.Println("note: ENGINE-MISMATCH " + m)
+		}
 		for _, l := range violationLines {
 			fmt.Println(l)
 		}
